@@ -28,9 +28,10 @@ def gen(rng, count):
         box = [f32(-6 + shx), f32(6 + shx), f32(-6), f32(6), f32(1.2e-3), f32(6.11e5)]
         sps = rng.choice([50, 200, 1000])
         angle = f32(2 * math.pi / sps)
-        mode = ["zero", "zero", "mod", "noise", "both"][k % 5]
-        ps = f32(rng.uniform(0.001, 0.02)) if mode in ("noise", "both") else 0.0
-        as_ = f32(rng.uniform(0.001, 0.01)) if mode in ("noise", "both") else 0.0
+        # "ampl"/"phase": one kind of noise only (a map cached on the other quantity goes stale)
+        mode = ["zero", "zero", "mod", "noise", "both", "ampl", "phase"][k % 7]
+        ps = f32(rng.uniform(0.001, 0.02)) if mode in ("noise", "both", "phase") else 0.0
+        as_ = f32(rng.uniform(0.001, 0.01)) if mode in ("noise", "both", "ampl") else 0.0
         ma = f32(rng.uniform(0.005, 0.05)) if mode in ("mod", "both") else 0.0
         mt = f32(rng.uniform(0.001, 0.1)) if mode in ("mod", "both") else (f32(0.01) if rng.random() < 0.5 else 0.0)
         e = box + [angle, f32(4.5e8), f32(9e6 / (8e3 * sps)), f32(1e6), f32(4.5e4), ps, as_, ma, mt]
@@ -42,7 +43,7 @@ def gen(rng, count):
             if o == "a":
                 na += 1
             ops.append(o)
-        if mode == "zero":
+        if mode in ("zero", "ampl"):
             ops = ["s"] + ops
         cid = "d%d" % k
         recs.append(dict(id=cid, n=n, nb=nb, lin=lin, steps=steps, mode=mode, ops=ops, modampl=ma, modtime=mt,
@@ -93,6 +94,34 @@ def oracle(rec, A):
                 return "zero-amplitude modulation recorded amplitude %r" % h2f(am)
         if len({ph for ph, am in flushed}) > 1:
             return "zero-amplitude modulation recorded varying phases"
+    # the kick of step k is the one recorded for step k.  Both RF models have the form
+    # off[x] = ampl * g(x, phase) + const, so two steps with the same recorded phase differ by the ratio of
+    # their recorded amplitudes (in differences over x), and a step with the static phase and amplitude a
+    # is a times the static map (again in differences over x)
+    if len(flushed) == len(applies) and applies and "off" in applies[0]:
+        offs = [[h2f(v) for v in a["off"]] for a in applies]
+        n = rec["n"]
+        span = lambda o: o[0] - o[n - 1]
+        by_phase = {}
+        for k, (ph, am) in enumerate(flushed):
+            by_phase.setdefault(ph, []).append(k)
+        for ph, ks in by_phase.items():
+            j = ks[0]
+            for k in ks[1:]:
+                lhs = span(offs[k]) * h2f(flushed[j][1])
+                rhs = span(offs[j]) * h2f(flushed[k][1])
+                if abs(lhs - rhs) > 2e-5 * max(abs(lhs), abs(rhs), 1e-30):
+                    return ("kicks %d and %d are recorded with the same phase and amplitudes %r, %r, but the applied "
+                            "displacement fields have slope ratio %r" % (j, k, h2f(flushed[j][1]), h2f(flushed[k][1]),
+                                                                         span(offs[k]) / span(offs[j]) if span(offs[j]) else None))
+        st = [d for o, d in ops if o == "s"]
+        if st and rec["mode"] in ("zero", "ampl") and "off" in st[0]:
+            so = [h2f(v) for v in st[0]["off"]]
+            for k, (ph, am) in enumerate(flushed):
+                want = span(so) * h2f(am)
+                if abs(span(offs[k]) - want) > 2e-5 * max(abs(want), 1e-30):
+                    return ("kick %d is recorded with the static phase and amplitude %r, but the applied displacement "
+                            "field is %r times the static one" % (k, h2f(am), span(offs[k]) / span(so) if span(so) else None))
     if rec["mode"] == "mod" and flushed:
         # pure sinusoidal phase modulation: phase_i - phase_0 = A*sin(2*pi*f*dt*i), amplitude 1
         p0 = h2f(flushed[0][0])
